@@ -348,6 +348,8 @@ def run(rep):
     from pgv.replayers import c11 as R11
     for res in R11.array_query_cases():
         rep.add_bounded(f"{P}/bounded.{res['name']}", res['ok'], res['detail'], replay={'kind': 'c11.array', 'name': res['name']})
+    for res in R11.branch_integral_cases():
+        rep.add_bounded(f"{P}/bounded.{res['name']}", res['ok'], res['detail'], replay={'kind': 'c11.branch_integral', 'name': res['name']})
     for res in R11.stored_dtype_cases():
         rep.add_bounded(f"{P}/bounded.{res['name']}", res['ok'], res['detail'], replay={'kind': 'c11.dtype', 'name': res['name']})
     rep.shape_bounded = {'N': 4 if rep.tier == 'quick' else 5, 'what': 'point-isotherm spreading pressure on 2..N symbolic increasing points',
